@@ -192,4 +192,5 @@ def check_matrix(ctx):
         first = [l for l in out.splitlines() if 'error' in l][:2]
         ctx.ob('C20.M', name, 'type-checks with %s -std=%s like with the other configurations' % (c, s), rc == 0 or not any(by_unit[u]),
                detail='\n'.join(first), key_detail='%s %s' % (c, s))
+    witness.check_static_unit(ctx, 'C20.M', os.path.join(extract.VERIF, 'witness', 's_meta.cpp'), 'policy detection (threading, callback, map)', tag='C20')
     witness.check_static_unit(ctx, 'C20.M', os.path.join(extract.VERIF, 'witness', 's_select.cpp'), 'policy defaults (map, threading, callback)', tag='C20')
